@@ -95,6 +95,9 @@ pub struct Fiber {
   /// Backtrace's instruction pointers used during an unwind
   backtrace_ips: UniqueVector<*const u8, Header>,
 
+  /// Are the filters of a catch clause being evaluated for the current error
+  selecting_handler: bool,
+
   /// The fiber running the module this fiber is importing. While it has
   /// not completed this fiber must not be resumed
   importing: Option<Ref<Self>>,
@@ -155,6 +158,7 @@ impl Fiber {
       error: None,
       frame: current_frame,
       backtrace_ips: UniqueVector::default(),
+      selecting_handler: false,
       importing: None,
       stack_top,
     }
@@ -333,6 +337,20 @@ impl Fiber {
   pub fn error_while_handling(&mut self) {
     self.pop_exception_handler();
     self.backtrace_ips.clear();
+    self.selecting_handler = false;
+  }
+
+  /// None of the catch clauses of the current handler takes the
+  /// error. The handler is dropped so the search can go on
+  pub fn continue_unwind(&mut self) {
+    self.selecting_handler = false;
+    self.pop_exception_handler();
+  }
+
+  /// Are the filters of a catch clause currently being evaluated. An
+  /// error raised by that evaluation cannot be handled by that clause
+  pub fn is_selecting_handler(&self) -> bool {
+    self.selecting_handler
   }
 
   /// pause unwind to search for handler
@@ -663,6 +681,7 @@ impl Fiber {
       error: None,
       frame: current_frame,
       backtrace_ips: UniqueVector::default(),
+      selecting_handler: false,
       importing: None,
       stack_top,
     };
@@ -764,6 +783,7 @@ impl Fiber {
     frame.store_ip(&instructions[exception_handler.offset()] as *const u8);
     self.frame = frame as *mut CallFrame;
     self.stack_top = stack_top;
+    self.selecting_handler = true;
 
     UnwindResult::PotentiallyHandled(frame)
   }}
@@ -781,6 +801,7 @@ impl Fiber {
     let backtrace = self.error_backtrace(&handler);
     self.frames.truncate(handler.call_frame_depth());
     self.backtrace_ips.clear();
+    self.selecting_handler = false;
 
     // Put the fiber back into an activated state
     self.activate();
